@@ -114,6 +114,7 @@ def run(rep, idx, tier):
               nontrivial=False)
     constructor(rep, idx)
     flatten_order(rep, idx)
+    container_coherence(rep, idx)
 
 
 def concatenated_read_data(rep, idx, c, L, field, W, whole):
@@ -365,3 +366,107 @@ def flatten_order(rep, idx):
     ok = any(ir.norm(ir.from_ast(n.iter, {})) == ('name', 'fields') for n in fors) and \
         any(isinstance(n, ast.Call) and ast.unparse(n.func) == "self._fields.append" for n in ast.walk(a.node))
     rep.check(ok, "C11.6", a.site, "FieldActionArray instantiates fields in list order (append)", "no `for item in fields: ... append`", nontrivial=False)
+
+
+def container_coherence(rep, idx, rule="C11.8"):
+    """The field collections are thin views of one backing store: what __getitem__ / __getattr__ / __iter__ / __len__ hand out
+    is what the constructor stored, under the key and in the order it was stored -- flatten() (C11.6) and every user of
+    `register.f.<name>[i]` (the GPIO peripheral, C16) rely on that."""
+    from .common import get_fn
+    for cname in ("FieldActionMap", "FieldActionArray"):
+        cls = idx.find_class(cname)
+        store = cls_store(cls)
+        if store is None:
+            rep.unk(rule, cls.site, f"{cname}: backing store", "the constructor does not create exactly one dict / list attribute for the fields")
+            continue
+        S = ('attr', ('name', 'self'), store)
+        # __getitem__(key) -> store[key]
+        gi = cls.method("__getitem__")
+        if gi is None:
+            rep.unk(rule, cls.site, f"{cname}.__getitem__", "not defined")
+        else:
+            c = get_fn(idx, gi)
+            rets = [c.norm(v) for v, g_, l_ in c.t.returns]
+            want = ('sub', S, ('name', 'key'))
+            wrong = None
+            if len(rets) == 1 and rets[0][0] == 'sub' and rets[0][1] == S and rets[0][2] != ('name', 'key'):
+                wrong = f"the element handed out is {ir.show(rets[0])}, not the one stored under the key"
+            elif len(rets) == 1 and rets[0][0] == 'sub' and rets[0][1] != S and rets[0][2] == ('name', 'key'):
+                wrong = f"the element is taken from {ir.show(rets[0][1])}, not from the collection's own store self.{store}"
+            rep.form(rets == [want], rule, gi.site, f"{cname}[key] is the field stored under key", f"returns {[ir.show(r)[:60] for r in rets]}", wrong=wrong)
+        # __len__ -> len(store)
+        ln_ = cls.method("__len__")
+        if ln_ is not None:
+            c = get_fn(idx, ln_)
+            rets = [c.norm(v) for v, g_, l_ in c.t.returns]
+            want = c.norm(('call', ('name', 'len'), (S,), ()))
+            wrong = None
+            if len(rets) == 1 and rets[0] != want and any(x == want for x in ir.walk(rets[0])):
+                wrong = f"len() is {ir.show(rets[0])}, not the number of stored fields"
+            rep.form(rets == [want], rule, ln_.site, f"len({cname}) is the number of stored fields", f"returns {[ir.show(r)[:60] for r in rets]}", wrong=wrong)
+        if cname == "FieldActionMap":
+            it = cls.method("__iter__")
+            if it is not None:
+                c = get_fn(idx, it)
+                ys = [(c.norm(v), frm, gen) for v, frm, gen, l_ in c.t.yields]
+                rets = [c.norm(v) for v, g_, l_ in c.t.returns]
+                ok = (len(ys) == 1 and ys[0][1] and ys[0][0] in (S, c.norm(('call', ('attr', S, 'keys'), (), ())))) or \
+                     rets in ([c.norm(('call', ('name', 'iter'), (S,), ()))], [c.norm(('call', ('name', 'iter'), (('call', ('attr', S, 'keys'), (), ()),), ()))]) or \
+                     (len(ys) == 1 and not ys[0][1] and len(ys[0][2]) == 1 and ys[0][2][0][0] == 'for' and
+                      c.norm(c.t.loops[ys[0][2][0][1]].iter) in (S, c.norm(('call', ('attr', S, 'keys'), (), ()))) and
+                      ys[0][0] in (('item', ys[0][2][0][1], ()), ('sub', S, ('idx', ys[0][2][0][1]))))
+                wrong = None
+                txt = ast.unparse(it.node)
+                if "reversed(" in txt or "sorted(" in txt:
+                    wrong = "the names are reported in another order than the fields were declared"
+                rep.form(ok, rule, it.site, "iter(FieldActionMap) yields the declared names in declaration order",
+                         f"yields {[ir.show(y[0])[:50] for y in ys]} returns {[ir.show(r)[:50] for r in rets]}", wrong=wrong)
+            ga = cls.method("__getattr__")
+            if ga is not None:
+                c = get_fn(idx, ga)
+                rets = [c.norm(v) for v, g_, l_ in c.t.returns]
+                ok = len(rets) == 1 and rets[0] in (c.norm(ir.parse("self[name]")), ('sub', S, ('name', 'name')))
+                wrong = None
+                if len(rets) == 1 and rets[0][0] == 'sub' and rets[0][2] != ('name', 'name'):
+                    wrong = f"attribute access hands out {ir.show(rets[0])}, not the field of that name"
+                rep.form(ok, rule, ga.site, "FieldActionMap.<name> is the field stored under that name", f"returns {[ir.show(r)[:60] for r in rets]}", wrong=wrong)
+                raises = {e for e, g_, l_ in c.t.raises}
+                rep.form(raises <= {"AttributeError"} and bool(raises), rule, ga.site, "a missing or reserved name is an AttributeError (attribute protocol)",
+                         f"raises {sorted(raises)}", wrong=None if not raises - {"AttributeError"} else
+                         f"raises {sorted(raises - {'AttributeError'})}: hasattr() / getattr(obj, name, default) on a field map then fail instead of answering",
+                         nontrivial=False)
+    # Register.__iter__: a single field is reported with the empty path, a collection through its flatten()
+    ri = idx.find_func("Register.__iter__")
+    c = get_fn(idx, ri)
+    if not c.t.yields:
+        # a thin wrapper `return self._private_generator()` delegates its yields
+        rets = [c.norm(v) for v, g_, l_ in c.t.returns]
+        if len(rets) == 1 and rets[0][0] == 'call' and rets[0][1][0] == 'attr' and rets[0][1][1] == ('name', 'self') and not rets[0][2]:
+            tgt = idx.lookup_method(ri.cls, rets[0][1][2])
+            if tgt is not None:
+                ri = tgt
+                c = get_fn(idx, ri)
+    ys = [(c.norm(v), frm) for v, frm, gen, l_ in c.t.yields]
+    single = c.norm(ir.parse("((), self.field)"))
+    alt_single = c.norm(ir.parse("((), self._field)"))
+    flat = [c.norm(ir.parse("self.field.flatten()")), c.norm(ir.parse("self._field.flatten()"))]
+    ok = any(not frm and v in (single, alt_single) for v, frm in ys) and (any(frm and v in flat for v, frm in ys) or
+                                                                         any(c.norm(L.iter) in flat for L in c.t.loops.values()))
+    rep.form(ok, rule, ri.site, "iter(Register) is ((), field) for a single field and the collection's flatten() otherwise",
+             f"yields {[ir.show(v)[:50] for v, frm in ys]}")
+
+
+def cls_store(cls):
+    """name of the one attribute that __init__ creates as dict() / {} / list() / []"""
+    init = cls.method("__init__")
+    if init is None:
+        return None
+    found = []
+    for n in ast.walk(init.node):
+        if isinstance(n, ast.Assign) and len(n.targets) == 1 and isinstance(n.targets[0], ast.Attribute) and \
+                isinstance(n.targets[0].value, ast.Name) and n.targets[0].value.id == "self":
+            v = n.value
+            if (isinstance(v, (ast.Dict, ast.List)) and not (v.keys if isinstance(v, ast.Dict) else v.elts)) or \
+                    (isinstance(v, ast.Call) and isinstance(v.func, ast.Name) and v.func.id in ("dict", "list") and not v.args and not v.keywords):
+                found.append(n.targets[0].attr)
+    return found[0] if len(found) == 1 else None
